@@ -503,7 +503,7 @@ def _is_self_assign(st):
     return isinstance(st, ast.Assign) and len(st.targets) == 1 and A.norm(st.targets[0]) == A.norm(st.value)
 
 
-def _lower_stmt(st):
+def _lower_stmt(st, pour_only=False):
     """One statement -> the statements that spell it with plain branches and loops:
     `t = a if c else b` / `return a if c else b`  ->  an if statement (self-assignments dropped);
     `acc.update({k: v for x in it if c})` / `acc |= {...}` / `acc = {k: v for ...}`  ->  a loop storing into acc."""
@@ -513,7 +513,7 @@ def _lower_stmt(st):
         return ast.fix_missing_locations(ast.copy_location(new, st))
 
     val = getattr(st, "value", None)
-    if isinstance(st, (ast.Assign, ast.AnnAssign, ast.Return)) and isinstance(val, ast.IfExp) and \
+    if not pour_only and isinstance(st, (ast.Assign, ast.AnnAssign, ast.Return)) and isinstance(val, ast.IfExp) and \
             (not isinstance(st, ast.Assign) or len(st.targets) == 1):
         arms = []
         for br in (val.body, val.orelse):
@@ -531,11 +531,11 @@ def _lower_stmt(st):
     comp = acc = None
     pre = []
     if isinstance(st, ast.Expr) and isinstance(val, ast.Call) and isinstance(val.func, ast.Attribute) and val.func.attr == "update" \
-            and isinstance(val.func.value, ast.Name) and len(val.args) == 1 and not val.keywords and isinstance(val.args[0], ast.DictComp):
+            and A.dotted(val.func.value) and len(val.args) == 1 and not val.keywords and isinstance(val.args[0], ast.DictComp):
         acc, comp = val.func.value, val.args[0]
     elif isinstance(st, ast.AugAssign) and isinstance(st.op, ast.BitOr) and isinstance(st.target, ast.Name) and isinstance(val, ast.DictComp):
         acc, comp = ast.Name(id=st.target.id, ctx=ast.Load()), val
-    elif isinstance(st, ast.Assign) and len(st.targets) == 1 and isinstance(st.targets[0], ast.Name) and isinstance(val, ast.DictComp) \
+    elif not pour_only and isinstance(st, ast.Assign) and len(st.targets) == 1 and isinstance(st.targets[0], ast.Name) and isinstance(val, ast.DictComp) \
             and st.targets[0].id not in {x.id for x in ast.walk(val) if isinstance(x, ast.Name)}:
         acc, comp = ast.Name(id=st.targets[0].id, ctx=ast.Load()), val
         pre = [at(ast.Assign(targets=[st.targets[0]], value=ast.Dict(keys=[], values=[]), type_comment=None))]
